@@ -24,7 +24,11 @@ Inductive perr :=
 | EIO
 | EGenericsForbiddenInGo (s : str)       (* RustTypeFormatError *)
 | EGenericKeyForbiddenInTS (s : str)
-| EUnsupportedSpecialType (s : str).
+| EUnsupportedSpecialType (s : str)
+(* std::io::Error values the back ends return from Language::write_* / begin_file (reported by the CLI as
+   "typeshare failed to generate types: <message>", exit 1) *)
+| EConstUnsupported (name : str)         (* io::ErrorKind::Unsupported: "constants are not supported for <Lang>: cannot generate `<name>`" (kotlin.rs, swift.rs write_const) *)
+| EPackageRequired.                      (* io::ErrorKind::InvalidInput: "a package name must be provided for Scala (--scala-package or typeshare.toml)" (scala.rs begin_file) *)
 
 Inductive outcome (A : Type) :=
 | Ok (a : A)
